@@ -1348,8 +1348,10 @@ pub fn tlc_lifecycle(n: usize, stats: bool) -> Result<ModelGraph, String> {
     if !st.success() {
         return Err("gen_lifecycle.py failed".into());
     }
+    // (TLC creates a scratch directory under java.io.tmpdir: keep it inside the run's own scratch)
     let out = std::process::Command::new("tlc")
         .current_dir(&dir)
+        .env("JAVA_TOOL_OPTIONS", format!("-Djava.io.tmpdir={}", dir.display()))
         .args(["-dump", "dot,actionlabels", "graph.dot", "-workers", "2", "Lifecycle.tla"])
         .output()
         .map_err(|e| format!("tlc: {}", e))?;
